@@ -12,7 +12,7 @@ CLAIMED = {
                 ref='DESIGN.md §4 C05'),
     'C10': dict(tech='exhaustive complement table + relational summary / sibling cross-check of the four reverse_complement bodies',
                 text='Static: complement table proven an involution with the documented pairs; each reverse_complement body is summarised '
-                     'as new[i][σ(s)] = old[rows-1-i][σ(comp(s))] and the four siblings compared; an early result other than that construction is confined to the empty matrix; Python wrapper reaches the core method. '
+                     'as new[i][σ(s)] = old[rows-1-i][σ(comp(s))] and the four siblings compared; an early result other than that construction is confined to the empty matrix; rescale applies per-column ratios in every row (so it commutes with the column permutation); Python wrapper reaches the core method. '
                      'The algebraic consequences (double application = identity, mirrored scores) follow on paper from these facts.',
                 ref='DESIGN.md §4 C10'),
 }
@@ -27,7 +27,7 @@ CLAIMED['C09'] = dict(tech='guard-dominance + sibling deviance on divisions by b
     text='Static (part): every division by a background frequency is dominated by a zero test of the same value (deviance rule over 4 sites); the one- and two-step '
          'log-odds routes share the zero convention; min/max score sum a per-row min/max over all non-wildcard columns with the natural order; validation exits '
          'exist with the right polarity and dominate Ok construction, with the extent of each validation (every row, every cell, every frequency); counting increments (position, symbol); '
-         'Background::from_counts writes every symbol index; every conversion that takes a background carries that background in its result; to_freq is (count + pseudocount) / row total over every row and column. The floating-point arithmetic itself is not decided.',
+         'Background::from_counts writes every symbol index; every conversion that takes a background carries that background in its result; to_freq is (count + pseudocount) / row total over every row and column; rescale is cell * old[j] / new[j] with the ratio of the cell\'s own column in every row. The floating-point arithmetic itself is not decided.',
     ref='DESIGN.md §4 C09')
 
 CLAIMED['C02'] = dict(tech='guard dominance / check-before-use on the scanner loop, linear-form position formula, estimate-direction (UP/DOWN) classification of the 8-bit comparisons',
@@ -56,7 +56,7 @@ CLAIMED['C18'] = dict(tech='check-before-use dataflow on every __getitem__, sibl
 CLAIMED['C14'] = dict(tech='provenance matching of matrix-fill stores, constant-table extraction, who-may-call on stream primitives, must-pass-through state reset, relational summary of buffer compaction, field-plumbing by variable names',
     text='Static (part): at the 8+ matrix-filling sites the row index is the enumerate counter of the value vector and the column the as_index of the paired symbol; JASPAR row order [A,C,G,T]; duplicate-symbol '
          'rejection; only read_until/read_line reach the stream (so records are a function of the byte stream, whatever the chunking); state reset dominates every returned record; compaction keeps buffer[start..]; '
-         'Record/Motif fields and the TRANSFAC tag table are not crossed; one-line parsers cannot cross their line end and blank separator lines are recognised by content. Acceptance of arbitrary well-formed text by the nom grammar is not decided.',
+         'Record/Motif fields and the TRANSFAC tag table are not crossed; one-line parsers cannot cross their line end, blank separator lines are recognised by content and blanks next to a delimiter token are optional. Acceptance of arbitrary well-formed text by the nom grammar is not decided.',
     ref='DESIGN.md §4 C14')
 CLAIMED['C15'] = dict(tech='panic-site inventory over the call graph reachable from the 8 reader entry points with re-verified discharge rules; reachability of Incomplete-producing parsers; table agreement; loop-exit analysis',
     text='Static: every Assert terminator, panicking call (unwrap/expect/panic!/unreachable!/unimplemented!) and may-panic std call (slice/str indexing, split_at, copy_within) in the 119 workspace bodies '
@@ -97,7 +97,7 @@ CLAIMED['C04'] = dict(tech='lane-dependence abstract interpretation of the AVX2 
 CLAIMED['C06'] = dict(tech='pointer provenance / alignment classification and linear bounds entailment (Fourier-Motzkin) on the memory-access log of the lane engine, guard dominance on kernel call sites, who-may-call inventory of unsafe code',
     text='Static (part): every unsafe fn and unsafe call of the core crate is inventoried and claimed by a rule; each scoring kernel has one caller whose call is dominated by the wrap check, the resize and the early '
          'return; all 60+ aligned loads/stores/streams are on row-derived pointers at offsets and steps that are multiples of the access width (Row layout from rustc); every vector access through a slice pointer '
-         '(encoders, AVX2 striping: 36 accesses) is proved in bounds from the loop guard by linear entailment; row-pointer accesses stay inside their row; the 13 vector accesses to local scratch buffers stay inside them; uninitialised storage escapes only when fully written. '
+         '(encoders, AVX2 striping: 36 accesses) is proved in bounds from the loop guard by linear entailment; row-pointer accesses stay inside their row; the 13 vector accesses to local scratch buffers stay inside them; uninitialised storage escapes only when fully written; the one library caller that passes row blocks, the scanner, ends every block within the sequence rows. '
          'Documented gap: caller-supplied row ranges outside the sequence rows (out of contract); std/generic-array/intrinsics trusted.',
     ref='DESIGN.md §4 C06')
 
